@@ -152,6 +152,7 @@ class C14(object):
                     return V("not-sorted", "%s: sparse_is_sorted reports a problem" % what)
             return None
 
+        hdf_trips = [0]
         if scen in ("roundtrip", "sort"):
             dt = rnd.choice([np.uint16, np.float32, np.uint16])
             if dt == np.float32:
@@ -236,6 +237,36 @@ class C14(object):
                             elif (np.asarray(dense2) != want).any():
                                 viol = V("roundtrip-differs", "to_dense(out=previously used buffer) keeps old content: the "
                                                               "result is not the selected pixels")
+                        if viol is None and rnd.random() < 0.3:
+                            # the frame travels through an HDF5 group (to_hdf_group / from_hdf_group); the group is new, or held
+                            # another frame of as many pixels before (re-processing into the same output file)
+                            import h5py
+                            p5 = os.path.join(ctx.scratch, "c14_frame_%d.h5" % os.getpid())
+                            reuse = rnd.random() < 0.6
+                            try:
+                                with h5py.File(p5, "w") as h5:
+                                    grp = h5.require_group("frame")
+                                    if reuse:
+                                        prev = sf.sparse_frame((ns - 1 - spf.row[::-1]).astype(spf.row.dtype), (nf - 1 - spf.col[::-1]).astype(spf.col.dtype),
+                                                               (ns, nf), pixels={"intensity": (spf.pixels["intensity"][::-1] + 1).astype(spf.pixels["intensity"].dtype)})
+                                        prev.to_hdf_group(grp)
+                                    spf.to_hdf_group(grp)
+                                with h5py.File(p5, "r") as h5:
+                                    back = sf.from_hdf_group(h5["frame"])
+                                bd = np.asarray(back.to_dense("intensity"))
+                                if back.nnz != spf.nnz or (back.row != spf.row).any() or (back.col != spf.col).any() or (bd != want).any():
+                                    viol = V("roundtrip-differs", "%s: the frame read back from an HDF5 group (%s) is not the frame that was "
+                                                                  "written: %d of %d pixels of the dense image differ" %
+                                             (route, "which held another frame of as many pixels before" if reuse else "new",
+                                              int((bd != want).sum()) if bd.shape == want.shape else -1, want.size))
+                            except Exception as e:
+                                if runner.is_harness_exception(e):
+                                    raise
+                                viol = V("raises", "to_hdf_group / from_hdf_group raised %s: %s" % (type(e).__name__, e))
+                            finally:
+                                if os.path.exists(p5):
+                                    os.remove(p5)
+                            hdf_trips[0] += 1
                         nontrivial = selected.sum() >= 2
                     if spf is not None:
                         digs.append(enginea.sha(spf.row, spf.col, spf.pixels.get("intensity", np.zeros(0))))
@@ -649,6 +680,7 @@ class C14(object):
         if scen == "pythreads":
             meas.update(meas_py)
         meas["concurrent_tosparse_pairs"] = conc_pairs
+        meas["frames_through_an_hdf5_group"] = hdf_trips[0]
         meas["data/mask layout"] = layouts
         if scen == "overlaps":
             meas["overlap_frames_offset(row/col)"] = offs
